@@ -90,7 +90,7 @@ func (t *TrafBox) ParseReadSenc(defaultIVSize byte, moofStartPos uint64) error {
 	} else {
 		senc = t.UUIDSenc.Senc
 	}
-	if t.Saio != nil {
+	if t.Saio != nil && len(t.Saio.Offset) > 0 {
 		// saio should be present, but we try without it, if it doesn't exist
 		posFromSaio := t.Saio.Offset[0] + int64(moofStartPos)
 		if uint64(posFromSaio) != senc.StartPos+16 {
